@@ -129,7 +129,7 @@ func TestC05_FailedTxOnlyChargesFee(t *testing.T) {
 	const minFee2500 = 20000 * 2500
 	funding := []uint64{0 /*bk: untouched*/, 0, minFee2500 - 1, minFee2500, minFee2500*3 + 777, 5000000000000}
 
-	harn.Check(t, 40, 2400, func(t *rapid.T) {
+	harn.Check(t, 90, 2400, func(t *rapid.T) {
 		base, err := os.MkdirTemp("", "c05-")
 		if err != nil {
 			t.Fatal(err)
@@ -222,6 +222,12 @@ func TestC05_FailedTxOnlyChargesFee(t *testing.T) {
 					amt := rapid.OneOf(rapid.Uint64Range(0, 3), rapid.Uint64Range(0, 3), rapid.Uint64Range(1, 300), rapid.Uint64Range(1, 300),
 						rapid.Uint64Range(1, 300), rapid.Just(uint64(1)<<62)).Draw(t, "amt")
 					to := rapid.IntRange(0, 5).Draw(t, "to")
+					// ONG transfers that leave the sender with less than the fee: execution succeeds, then the
+					// post-execution balance check fails (the "balance < costGas after execution" branch)
+					if sp.Token == 1 && from >= 2 && to != from && rapid.IntRange(0, 2).Draw(t, "nearlyall") == 0 {
+						amt = funding[from] - rapid.Uint64Range(0, 30000000).Draw(t, "leave")
+						ev.Class("gen:ong-transfer-leaving-less-than-fee")
+					}
 					sp.St = append(sp.St, c05St{from, to, amt})
 					st := ont.TransferState{From: users[from].Address, To: users[to].Address, Value: amt}
 					sp.States = append(sp.States, st)
